@@ -34,7 +34,7 @@ def gen_continuum(ch, *, min_annot=2, max_annot=4, max_units=7, labelset="alpha"
     n_annot = ch.randint(min_annot, max_annot)
     names = ANNOTATOR_NAMES[:n_annot]
     fam = ch.weighted(families or [("jitter", 5), ("random", 3), ("grid", 3), ("identical", 1),
-                                   ("nested", 1), ("staircase", 1), ("staircase_shared", 1), ("sparse", 1)])
+                                   ("nested", 1), ("staircase", 1), ("staircase_shared", 1), ("sparse", 1), ("hetero", 2)])
     units = {n: [] for n in names}
 
     def lab():
@@ -112,6 +112,16 @@ def gen_continuum(ch, *, min_annot=2, max_annot=4, max_units=7, labelset="alpha"
             for j in range(k):
                 s = (i + j) * step
                 units[n].append([r3(s), r3(s + length), labs[0] if same_label else labs[i + j]])
+    elif fam == "hetero":
+        # very heterogeneous durations (0.3 .. 100, log-uniform): a long unit can be positionally closer
+        # than a short one that starts earlier, because the dissimilarity is normalised by durations
+        import math as _m
+        for n in names:
+            t = ch.uniform(0.0, 5.0)
+            for _ in range(ch.randint(0 if allow_empty_annot else 1, max_units)):
+                d = _m.exp(ch.uniform(_m.log(0.3), _m.log(100.0)))
+                units[n].append([r3(t), r3(t + d), lab()])
+                t += ch.choice([0.3, 1.0, 1.0]) * d * ch.uniform(0.1, 1.2)
     elif fam == "dense":
         # heavily overlapping units of similar length: almost every combination stays under the pruning
         # bound, so the candidate set is (nearly) the full product - crosses the 10000-candidate buffer growth
